@@ -51,7 +51,7 @@ def fmt_problem(v):
         for i in range(lo, min(len(evs), m + 3)):
             out.append(("  ok  " if i < m else "  ??  ") + fmt_ev(evs[i]))
         out.append("  spec state before the unmatched event: " + v["spec_state"][:1800])
-    for k in ("outcomes", "impl_outcomes", "witness", "divergence", "errors", "detail", "stderr"):
+    for k in ("outcomes", "impl_outcomes", "witness", "divergence", "errors", "detail", "stderr", "class", "input"):
         if k in v:
             out.append(f"  {k}: " + json.dumps(v[k])[:1500])
     return "\n".join(out)
@@ -267,7 +267,60 @@ def match_known(pid, sig, known):
     return None
 
 
+def run_c16(tier):
+    """Schedule wire format: TLC checks Decode(Encode(x)) = x on the boundary classes and decides which
+    cut strings are invalid; every vector then goes through the real serializer and parser."""
+    t0 = time.time()
+    vlib.build_harness()
+    known = vlib.load_known()
+    wd = vlib.fresh_dir(os.path.join(vlib.WORK, "run-c16"))
+    res = vlib.run_tlc("Serialization", "Serialization.cfg", {"SER_TIER": tier}, wd, workers=14, timeout=1200)
+    problems = []
+    if not res["ok"]:
+        problems.append({"kind": "tlc-error", "errors": res["errors"][:5], "sig": "serialization/model", "out": res["out"]})
+    vecs = os.path.join(wd, "vec.ndjson")
+    n = 0
+    sample = []
+    with open(vecs, "w") as o:
+        for p in vlib.tlc_lines(res["out"], "VEC"):
+            line = json.loads(p)
+            o.write(line + "\n")
+            n += 1
+            if n in (3, 400, 4000):
+                v = json.loads(line)
+                v["cuts"] = v["cuts"][:6]
+                sample.append(v)
+    import subprocess
+    r = subprocess.run([vlib.BIN, "serial", "--vectors", vecs], stdout=subprocess.PIPE, stderr=subprocess.PIPE, text=True)
+    rep = {"vectors": 0, "checks": 0, "failed": 0, "failures": []}
+    if r.returncode != 0:
+        crumb = ""
+        if os.path.exists(vecs + ".last"):
+            crumb = open(vecs + ".last").read()
+        cls = crumb.split(" ")[0] if crumb else "unknown"
+        problems.append({"kind": "parser-abort", "input": crumb, "stderr": r.stderr[-600:], "sig": f"serialization/abort/{cls}"})
+    else:
+        rep = json.loads(r.stdout.strip().splitlines()[-1])
+        by_class = {}
+        for f in rep["failures"]:
+            by_class.setdefault(f["class"], f)
+        for cls, f in by_class.items():
+            problems.append({"kind": "vector-failed", "class": cls, "input": f["input"], "detail": f["detail"],
+                             "sig": f"serialization/{cls}"})
+    totals = {"trace_states": res["states"], "trace_transitions": res["transitions"], "leaves_reached": rep.get("vectors", 0),
+              "programs": 0}
+    extra = {"vectors": rep.get("vectors", 0), "checks_on_impl": rep.get("checks", 0),
+             "cuts_valid": rep.get("cuts_valid", 0), "cuts_invalid": rep.get("cuts_invalid", 0),
+             "malformed_strings": rep.get("malformed", 0), "exhaustive": False,
+             "checker_cmd": "tlc -config Serialization.cfg Serialization.tla ; vharness serial --vectors <TLC output>"}
+    spec = {"assume": ["boundary classes: seeds of every varint length, id widths {1,2,7,8,31,32,63,64}, lengths around byte and line-wrap boundaries",
+                       "a cut that removes padding bytes only still decodes (to the same schedule); 'cut short' = a declared step is missing"]}
+    return finish("C16", tier, t0, spec, totals, [], problems, [{"vector": v} for v in sample], known, extra_cov=extra)
+
+
 def run_property(pid, tier):
+    if pid == "C16":
+        return run_c16(tier)
     if pid not in SHUTTLE_PROPS:
         raise vlib.ToolError(f"no check registered for {pid}")
     t0 = time.time()
